@@ -115,6 +115,23 @@ def priority(prop, fam, t):
     return False
 
 
+def _fetch_family(arg):
+    """TLC derives the programs of one family; the stratified sub-sample that will be replayed is returned"""
+    prop, (name, fam, budget, keep, pass_name), workers = arg
+    progs, st = common.gen_programs(prop, name, fam, budget, workers=workers)
+    total = len(progs)
+    if prop == "C14":
+        # the property's antecedent: some earlier stage packages values
+        progs = [p for p in progs if has_kind(p, PACK)]
+    if keep is not None:
+        # the class the property singles out - a nested Select over a packaged sequence - is always kept whole
+        prio = [p for p in progs if priority(prop, fam, p)]
+        rest = [p for p in progs if not priority(prop, fam, p)]
+        progs = prio + common.subsample_stratified(rest, max(0, keep - len(prio)), salt=name)
+    st = {k: v for k, v in st.items() if k not in ("stdout", "output")}
+    return progs, total, st
+
+
 def run(prop, tier):
     rep = common.Report(prop, tier)
     plan = PLANS[prop][tier]
@@ -177,18 +194,15 @@ def run(prop, tier):
         if len(pending) >= FLUSH:
             flush()
 
-    for (name, fam, budget, keep, pass_name) in plan:
-        progs, st = common.gen_programs(prop, name, fam, budget)
+    if tier == "quick":
+        # the families are generated (TLC), loaded and sub-sampled side by side, each by a forked worker
+        import multiprocessing
+        with multiprocessing.get_context("fork").Pool(min(6, len(plan))) as pool:
+            fetched = pool.map(_fetch_family, [(prop, e, 4) for e in plan])
+    else:
+        fetched = (_fetch_family((prop, e, 16)) for e in plan)     # one at a time: memory
+    for (name, fam, budget, keep, pass_name), (progs, total, st) in zip(plan, fetched):
         rep.add_tlc(st)
-        total = len(progs)
-        if prop == "C14":
-            # the property's antecedent: some earlier stage packages values
-            progs = [p for p in progs if has_kind(p, PACK)]
-        if keep is not None:
-            # the class the property singles out - a nested Select over a packaged sequence - is always kept whole
-            prio = [p for p in progs if priority(prop, fam, p)]
-            rest = [p for p in progs if not priority(prop, fam, p)]
-            progs = prio + common.subsample_stratified(rest, max(0, keep - len(prio)), salt=name)
         do_family(name, progs, total, budget, keep is None or total <= keep, pass_name)
         del progs
     nrand, rb = PLANS[prop]["random"][tier]
